@@ -687,6 +687,9 @@ func (w *world) applyLock(req *request, d *delivery) {
 		w.k.Probe("lock-ok")
 	case nfsv4.NFS4ERR_DENIED:
 		w.k.Probe("lock-denied")
+		if req.kind == kLockExist {
+			w.k.Probe("lock-denied-existing-lock-owner")
+		}
 	default:
 		w.checkNotRefused(req, d, s, "LOCK")
 	}
